@@ -23,7 +23,8 @@ EXTENDS Integers, Sequences, FiniteSets
 CONSTANTS N,            \* data blocks in the source before its end mark
           Num,          \* capacity of the queue
           DecodeFailAt, \* this block fails to decode (0 = none)
-          SourceFailAt  \* reading this block from the source fails (0 = none; N+1 = at the end mark)
+          SourceFailAt, \* reading this block from the source fails (0 = none; N+1 = at the end mark)
+          EmptyBlocks   \* blocks that decode to zero bytes
 
 Blocks == 1 .. N
 Sentinel == N + 1
@@ -170,12 +171,14 @@ CClose ==      \* close(c); the sentinel ends the collector
     /\ UNCHANGED <<rpc, rnext, rerr, q, dpc, ccur, skip, data, dataVal, upc, got, latched, result>>
 
 \* ---- consumer --------------------------------------------------------------------
-URecv ==       \* r.data = <-r.reads
+URecv ==       \* r.data = <-r.reads; a zero-length result makes the consumer ask for the latched error
     /\ upc = "recv"
     /\ \/ /\ data = "full"
           /\ got' = Append(got, dataVal)
           /\ data' = "empty"
-          /\ UNCHANGED <<upc, result>>
+          /\ IF dataVal \in EmptyBlocks /\ latched # "none"
+             THEN result' = latched /\ upc' = "done"          \* an empty block while an error / the end is latched
+             ELSE UNCHANGED <<upc, result>>
        \/ /\ data = "closed"                                      \* nil: ask for the latched error
           /\ result' = latched
           /\ upc' = "done"
@@ -208,9 +211,15 @@ FinalResult ==
 
 \* C08 leak clause: once the consumer has been told the end / the error, no goroutine of the pipeline is
 \* blocked: reader and collector have finished, every decoder has finished or can finish on its own
+\* (the consumer may stop one step early, on a trailing empty block; then the others still have a few
+\* steps to run, none of which needs the consumer)
 NoGoroutineLeft ==
-    upc = "done" => /\ rpc = "done" /\ cpc = "done"
-                    /\ \A i \in Blocks : dpc[i] \in {"idle", "done"} \/ (dpc[i] = "offered" /\ chan[i] \in {"taken", "closed"})
+    upc = "done" =>
+        \/ /\ rpc = "done" /\ cpc = "done"
+           /\ \A i \in Blocks : dpc[i] \in {"idle", "done"} \/ (dpc[i] = "offered" /\ chan[i] \in {"taken", "closed"})
+        \/ /\ got # <<>> /\ got[Len(got)] \in EmptyBlocks
+           /\ cpc \notin {"deliver"} /\ data # "full"
+           /\ \A i \in Blocks : i > got[Len(got)] /\ dpc[i] # "idle" => result # "eof"
 
 EventuallyAllDone == <>AllDone
 =============================================================================
